@@ -145,7 +145,34 @@ def lyOpE2E (c : Json) : R Json := do
   | .ok out => return Json.mkObj [("o", "ok"), ("v", lyJOut (.dict out))]
   | .error e => return lyErrJson e
 
+partial def lyParseOT (fields : List Json) : R OT := do
+  match fields with
+  | [] => return .nil
+  | f :: rest =>
+    let r ← lyParseOT rest
+    let name := chars (← str f "name")
+    match (← str f "k") with
+    | "leaf" =>
+      let d ← (match f.getObjVal? "dflt" with
+        | .ok v => lyParseJ v
+        | .error _ => pure J.null)
+      let a : Option J ← (match f.getObjVal? "arg" with
+        | .ok v => (lyParseJ v).map some
+        | .error _ => pure none)
+      return .leaf name d a r
+    | "member" => return .member name (← bool f "opt") (← lyParseOT (← arr f "cls").toList) r
+    | k => throw s!"bad field kind {k}"
+
+/-- op `layers.collapse`: a class with Optional members that nothing but the command line mentions ↦ the instance tree
+    (`null` for a member that stays None) | exit 2 when a required option is missing -/
+def lyOpCollapse (c : Json) : R Json := do
+  let ot ← lyParseOT (← arr c "cls").toList
+  if otMissing ot then return lyErrJson .exit2
+  let dest ← str c "dest"
+  return Json.mkObj [("o", "ok"), ("v", lyJOut (.dict [(chars dest, .dict (built ot))]))]
+
 def layersOps : List (String × (Json → R Json)) :=
-  [("layers.dict_union", lyOpDictUnion), ("layers.set_default", lyOpSetDefault), ("layers.e2e", lyOpE2E)]
+  [("layers.dict_union", lyOpDictUnion), ("layers.set_default", lyOpSetDefault), ("layers.e2e", lyOpE2E),
+   ("layers.collapse", lyOpCollapse)]
 
 end SpVerif.Drive
